@@ -29,17 +29,20 @@ package diff
 //@ func loadPackagesFromSource
 //@   noframe
 //@   ensures [C15.site] true
+// C01: the loader runs in the directory of the file it is given, whatever directory the process was started in (an
+// empty Dir would make go list resolve the package - and with it every function name - relative to the cwd)
+//@   call packages.Load assert [C01.dir] a0 != nil && a0.Dir == dirOf(filename) && a0.Dir != ""
 
 // ---- C17: bounded work
 // Instruction-equivalence comparisons in matchUsers stay within |usersOld| x MaxCandidates (ghost counter cmp).
 //@ func (*Zipper).matchUsers
 //@   noframe
-//@   protocol-only C09
+//@   protocol-only C09 C04
 // C09: a new instruction is paired at most once: it is handed to recordInstrMatch only while it is unmapped (or the
 // old instruction is already mapped, in which case recordInstrMatch does nothing) - the second precondition of
 // recordInstrMatch, obliged at the call site. It survives the call to areEquivalent in between because the inferred
 // write set of areEquivalent contains no map of the type of instrMap / revInstrMap.
-//@   ensures [C09.maps] true
+//@   ensures [C09.maps] [C04.maps] true
 //@   ghost cmp int
 //@   init cmp = 0
 //@   call (*Zipper).areEquivalent update cmp = cmp + 1
@@ -129,6 +132,9 @@ package diff
 //@   call (*Zipper).compareOperands update operandsOK = result
 //@   ensures [C04.equiv] result ==> opsOK && operandsOK
 //@   ensures [C04.equiv] result ==> purecall("reflect.TypeOf", a) == purecall("reflect.TypeOf", b)
+// the result types compared are the first instruction's and the second instruction's (never one with itself)
+//@   protocol-only C09
+//@   call go/types.Identical assert [C04.equiv] [C09.equiv] a0 == typeOfV(vA) && a1 == typeOfV(vB)
 
 //@ func (*Zipper).compareOps
 //@   noframe
@@ -150,11 +156,11 @@ package diff
 //@ mapwriters [C09.maps] [C04.maps] Zipper.revInstrMap only (*Zipper).recordInstrMatch
 //@ func (*Zipper).recordInstrMatch
 //@   requires z != nil && z.instrMap != nil && z.revInstrMap != nil && z.instrMap != z.revInstrMap && lockstep(z)
-//@   requires [C09.maps] (old in z.instrMap) || !(new in z.revInstrMap)
+//@   requires [C09.maps] [C04.maps] (old in z.instrMap) || !(new in z.revInstrMap)
 //@   modifies z.instrMap
 //@   modifies z.revInstrMap
-//@   ensures [C09.maps] lockstep(z) && (old in z.instrMap)
-//@   ensures [C09.maps] !(old in old(keys(z.instrMap))) ==> z.instrMap[old] == new && z.revInstrMap[new] == old
+//@   ensures [C09.maps] [C04.maps] lockstep(z) && (old in z.instrMap)
+//@   ensures [C09.maps] [C04.maps] !(old in old(keys(z.instrMap))) ==> z.instrMap[old] == new && z.revInstrMap[new] == old
 
 //@ func (*Zipper).isolateDivergence
 //@   noframe
@@ -210,6 +216,10 @@ package diff
 // every function member of a package visited so far has been handed to processFunctionAndAnons (which marks it)
 //@   loop 2 invariant [C16.enum] forall m in #visited :: hasType(ssaPkg.Members[m], "*ssa.Function") ==> visited[dyn(ssaPkg.Members[m], "*ssa.Function")]
 //@   loop 3 invariant [C16.enum] forall m in #visited :: hasType(ssaPkg.Members[m], "*ssa.Function") ==> visited[dyn(ssaPkg.Members[m], "*ssa.Function")]
+// and every declared method of a named type member (pointer receivers included: the declaration list of the type,
+// not a method set) whose function exists has been handed over too
+//@   loop 3 invariant [C16.enum] 0 <= #i && forall k in 0..#i :: purecall("(*golang.org/x/tools/go/ssa.Program).FuncValue", prog, purecall("(*go/types.Named).Method", named, k)) != nil ==> visited[purecall("(*golang.org/x/tools/go/ssa.Program).FuncValue", prog, purecall("(*go/types.Named).Method", named, k))]
+//@   loop 3 invariant [C16.enum] #i == i
 
 // ---- C04: operands are compared slot by slot. go/ssa encodes optional operands by position (the nil slots of a
 // Slice, a MakeSlice, ...), so the two operand lists are compared as Operands(nil) returned them - same length, same
